@@ -75,9 +75,13 @@ class PosInterp:
     def __init__(self, d):
         self.d = d
         self.paths = []
+        self.formulas = []
+        self.cond_stack = []
 
     def run(self, fn, env):
         self.paths = []
+        self.formulas = []
+        self.cond_stack = []
         self._stmts(ir.kids(ir.body(fn)), dict(env), [])
         return self.paths
 
@@ -89,15 +93,24 @@ class PosInterp:
                 ks = ir.ekids(s)
                 v = self.ev(ks[0], env) if ks else None
                 self.paths.append((env, v, list(conds)))
+                self.formulas.append(list(self.cond_stack))
                 return True
             if k == "IfStmt":
                 ks = ir.ekids(s)
                 c = ir.show(ir.sx(ks[0]))
+                try:
+                    cf = self.ev(ks[0], env)
+                except Giveup:
+                    cf = None
                 e1 = self._clone(env)
+                self.cond_stack.append(cf)
                 done1 = self._stmts([ks[1]] + ss[i + 1:], e1, conds + [c])
+                self.cond_stack.pop()
                 e2 = self._clone(env)
                 rest = ([ks[2]] if len(ks) > 2 else []) + ss[i + 1:]
+                self.cond_stack.append(("not", cf) if cf is not None else None)
                 self._stmts(rest, e2, conds + ["!(%s)" % c])
+                self.cond_stack.pop()
                 return True
             if k == "CompoundStmt":
                 if self._stmts(ir.kids(s) + ss[i + 1:], env, conds):
@@ -120,7 +133,22 @@ class PosInterp:
                 continue
             self.ev(s, env)
         self.paths.append((env, None, list(conds)))
+        self.formulas.append(list(self.cond_stack))
         return True
+
+    def merged(self):
+        """one boolean formula for a bool-returning function: OR over the paths of (its conditions AND its result)"""
+        out = None
+        for (env, v, _), fs_ in zip(self.paths, self.formulas):
+            if v is None:
+                return None
+            f = v
+            for c in reversed(fs_):
+                if c is None:
+                    return None
+                f = ("&&", c, f)
+            out = f if out is None else ("||", out, f)
+        return out
 
     def _clone(self, env):
         out = {}
@@ -181,6 +209,8 @@ class PosInterp:
             return self.ev(ks[-1], env)
         if k == "IntegerLiteral":
             return Poly.const(int(n["value"]))
+        if k == "CXXBoolLiteralExpr":
+            return ("boolc", bool(n.get("value")))
         if k == "CXXThisExpr":
             return ("thisptr",)
         if k == "DeclRefExpr":
@@ -268,6 +298,19 @@ class PosInterp:
                 return self.add(b, self.neg(a))
             if name in ("move", "forward", "addressof") and len(ks) == 2:
                 return self.ev(ks[1], env)
+            h = getattr(self, "methods", {}).get(name)
+            if h is not None and name not in getattr(self, "no_inline", ()) and getattr(self, "depth", 0) < 3:
+                # a single-return helper member of the iterator (position(), to_index(p)): evaluated in place
+                hk = ir.kids(ir.body(h)) if ir.body(h) else []
+                if len(hk) == 1 and hk[0].get("kind") == "ReturnStmt" and ir.ekids(hk[0]) and len(ir.params(h)) == len(ks) - 1:
+                    env2 = {"this": env.get("this")}
+                    for p_, a_ in zip(ir.params(h), ks[1:]):
+                        env2[p_["id"]] = self.ev(a_, env)
+                    self.depth = getattr(self, "depth", 0) + 1
+                    try:
+                        return self.ev(ir.ekids(hk[0])[0], env2)
+                    finally:
+                        self.depth -= 1
             args = [self.ev(a, env) for a in ks[1:]]
             return ("call", name) + tuple(args)
         if k in ("CXXConstructExpr", "CXXUnresolvedConstructExpr", "CXXTemporaryObjectExpr", "InitListExpr", "ParenListExpr"):
@@ -282,7 +325,11 @@ class PosInterp:
             b = self.ev(ks[2], env)
             if a == b:
                 return a
-            return ("ite", ir.show(ir.sx(ks[0])), a, b)
+            try:
+                c = self.ev(ks[0], self._clone(env))
+            except Giveup:
+                c = ir.show(ir.sx(ks[0]))
+            return ("ite", c, a, b)
         raise Giveup("expression " + str(k))
 
     def neg(self, v):
@@ -352,21 +399,38 @@ def vshow(v):
 
 
 # ---- C12.cmp -------------------------------------------------------------------------------------------------------------
-def truth(v, ordering):
+def truth(v, ordering, pos=None):
     """evaluate a comparison formula over the atoms (lhs == rhs), (lhs < rhs), (rhs < lhs) under an ordering"""
     if isinstance(v, tuple):
+        if v[0] == "boolc":
+            return v[1]
         if v[0] == "not":
-            t = truth(v[1], ordering)
+            t = truth(v[1], ordering, pos)
             return None if t is None else (not t)
+        if v[0] == "ite":
+            c = truth(v[1], ordering, pos) if isinstance(v[1], tuple) else None
+            return None if c is None else truth(v[2] if c else v[3], ordering, pos)
         if v[0] in ("&&", "||"):
-            a, b = truth(v[1], ordering), truth(v[2], ordering)
+            a = truth(v[1], ordering, pos)
+            if a is not None and a == (v[0] == "||"):
+                return a            # short circuit
+            b = truth(v[2], ordering, pos)
             if a is None or b is None:
                 return None
             return (a and b) if v[0] == "&&" else (a or b)
         if v[0] == "cmp":
             op, a, b = v[1], v[2], v[3]
-            pa = a[1]["pos"] if isinstance(a, tuple) and a[0] == "obj" else None
-            pb = b[1]["pos"] if isinstance(b, tuple) and b[0] == "obj" else None
+            # field-wise comparison T.f <op> R.f (either orientation): every position field moves in lockstep, so the model decides it
+            fa = list(a)[0][0] if isinstance(a, Poly) and len(a) == 1 and list(a.values()) == [1] else None
+            fb = list(b)[0][0] if isinstance(b, Poly) and len(b) == 1 and list(b.values()) == [1] else None
+            if isinstance(fa, str) and isinstance(fb, str) and fa[:2] in ("T.", "R.") and fb[:2] in ("T.", "R.") and fa[2:] == fb[2:] and fa[:2] != fb[:2]:
+                rel = {"lt": -1, "eq": 0, "gt": 1}[ordering]
+                if pos is not None and fa[2:] not in pos:
+                    rel = 0             # container pointer / step: the same for two iterators over one sequence
+                x, y = (rel, 0) if fa[:2] == "T." else (0, rel)
+                return {"==": x == y, "!=": x != y, "<": x < y, ">": x > y, "<=": x <= y, ">=": x >= y}[op]
+            pa = a[1]["pos"] if isinstance(a, tuple) and a[0] == "obj" and "pos" in a[1] else None
+            pb = b[1]["pos"] if isinstance(b, tuple) and b[0] == "obj" and "pos" in b[1] else None
             if pa is None or pb is None:
                 return None
             sa = list(pa)[0][0] if len(pa) == 1 else None
@@ -415,8 +479,9 @@ def rule_derived(rep, d):
                 if name in spec_cmp:
                     env = {ps[0]["id"]: ("obj", {"pos": Poly.sym("L")}), ps[1]["id"]: ("obj", {"pos": Poly.sym("R")})}
                     paths = it.run(fn, env)
+                    mf = it.merged()
                     for ordering in ("lt", "eq", "gt"):
-                        got = [truth(p[1], ordering) for p in paths]
+                        got = [truth(mf, ordering)] if mf is not None else [None]
                         want = {"!=": ordering != "eq", "<=": ordering != "gt", ">=": ordering != "lt", ">": ordering == "gt"}[spec_cmp[name]]
                         scen = {"lt": "lhs before rhs", "eq": "same position", "gt": "lhs after rhs"}[ordering]
                         if len(got) != 1 or got[0] is None:
@@ -572,10 +637,60 @@ def rule_step(rep, d, classes):
                 rhs = make("R.")
                 env[ps[0]["id"]] = rhs
             it = PosInterp(d)
+            it.methods = {k_: v_ for k_, v_ in defs.items() if not k_.startswith("operator") and k_ not in ("equal", "less_than")}
             try:
                 paths = it.run(fn, env)
             except Giveup as e:
                 rep.inconclusive("C12.step", label, "body", where=where, detail=str(e))
+                continue
+            if name in ("operator==", "operator<"):
+                # decided on the function as a whole (all paths merged into one formula), in the three lockstep models
+                mf = it.merged()
+                problems = []
+                seen_fields = set()
+
+                def walk(v):
+                    if isinstance(v, tuple) and v and v[0] in ("&&", "||"):
+                        walk(v[1]); walk(v[2])
+                    elif isinstance(v, tuple) and v and v[0] == "not":
+                        walk(v[1])
+                    elif isinstance(v, tuple) and v and v[0] == "ite":
+                        for x_ in v[1:]:
+                            walk(x_)
+                    elif isinstance(v, tuple) and v and v[0] == "cmp":
+                        op, l, r = v[1], v[2], v[3]
+                        lf = list(l)[0][0] if isinstance(l, Poly) and len(l) == 1 else None
+                        rf = list(r)[0][0] if isinstance(r, Poly) and len(r) == 1 else None
+                        if not isinstance(lf, str) or not isinstance(rf, str) or {lf[:2], rf[:2]} != {"T.", "R."} or lf[2:] != rf[2:]:
+                            problems.append("`%s %s %s` does not compare a field of *this with the same field of rhs" % (vshow(l), op, vshow(r)))
+                        else:
+                            seen_fields.add(lf[2:])
+                            if lf[2:] not in pos and op not in ("==", "!="):
+                                problems.append("field %s is not a position but is compared with `%s`" % (lf[2:], op))
+                    elif isinstance(v, tuple) and v and v[0] == "boolc":
+                        pass
+                    else:
+                        problems.append("non-comparison term %s" % vshow(v))
+                if mf is None:
+                    rep.inconclusive("C12.step", label, "comparison", where=where, detail="a path does not return a boolean formula")
+                    continue
+                walk(mf)
+                if not problems:
+                    for ordering, scen_ in (("lt", "*this before rhs"), ("eq", "same position"), ("gt", "*this after rhs")):
+                        got = truth(mf, ordering, set(pos))
+                        want = (ordering == "eq") if name == "operator==" else (ordering == "lt")
+                        if got is None:
+                            problems.append("not evaluable with %s" % scen_)
+                        elif got != want:
+                            problems.append("with %s it yields %s, expected %s" % (scen_, got, want))
+                if name == "operator<" and not (set(pos) & seen_fields):
+                    problems.append("no position field is compared")
+                if name == "operator==" and set(fields) - seen_fields:
+                    problems.append("fields not compared: %s" % sorted(set(fields) - seen_fields))
+                if problems:
+                    rep.violates("C12.step", label, "comparison", where=where, detail="; ".join(problems))
+                else:
+                    rep.holds("C12.step", label, "comparison", where=where, detail=vshow(mf)[:160])
                 continue
             for env_out, ret, conds in paths:
                 scen = " && ".join(conds) if conds else "straight line"
